@@ -811,6 +811,72 @@ impl GateServer {
         got
     }
 
+    /// A second SIGUSR1 (announcing a second edit) while the first reload is parked at
+    /// `park_at`: the first reload has read its files already, so only a second
+    /// reload can make the second edit take effect.  old -> new (signal 1), then
+    /// new -> old (signal 2 while parked); afterwards the old configuration must be
+    /// in force again.  Err = machinery.
+    fn second_signal(&mut self, park_at: &str) -> Result<Vec<(String, String)>, String> {
+        let mut findings = Vec::new();
+        self.reset()?;
+        write_gate_files(&self.dir, 1)?;
+        self.srv.signal(libc::SIGUSR1);
+        let deadline = Instant::now() + LONG;
+        let parked = loop {
+            let now = Instant::now();
+            if now >= deadline {
+                return Err(format!("second-signal: the reload never reached {park_at}"));
+            }
+            match self.rx.recv_timeout(deadline - now) {
+                Ok(a) if a.gate == park_at && a.tag == RELOAD_TAG => break a,
+                Ok(a) => go(a),
+                Err(RecvTimeoutError::Timeout) => {}
+                Err(RecvTimeoutError::Disconnected) => return Err("second-signal: gate channel closed".into()),
+            }
+        };
+        write_gate_files(&self.dir, 0)?;
+        self.srv.signal(libc::SIGUSR1);
+        // let the signal reach the process before the reload task moves on
+        std::thread::sleep(Duration::from_millis(150));
+        go(parked);
+        // the first reload finishes; a second one must start and finish
+        let seen = self.auto(
+            |s| {
+                let first_done = if park_at == "reload.done" { Some(0) } else { s.iter().position(|g| g.starts_with("reload.done")) };
+                match first_done {
+                    Some(i) => {
+                        let rest = &s[i.min(s.len())..];
+                        let sig = rest.iter().position(|g| g.starts_with("reload.signal"));
+                        matches!(sig, Some(j) if rest[j..].iter().any(|g| g.starts_with("reload.done")))
+                    }
+                    None => false,
+                }
+            },
+            LONG,
+        );
+        let second_started = {
+            let from = if park_at == "reload.done" { 0 } else { seen.iter().position(|g| g.starts_with("reload.done")).map(|i| i + 1).unwrap_or(seen.len()) };
+            seen[from.min(seen.len())..].iter().any(|g| g.starts_with("reload.signal"))
+        };
+        if !second_started {
+            findings.push((
+                "second-signal-lost".to_string(),
+                format!("a SIGUSR1 delivered while the reload task was parked at {park_at} started no second reload within {LONG:?} (gates seen afterwards: {seen:?})"),
+            ));
+        }
+        match self.auto_query("x.a.test.", 0x0e0e) {
+            Some(r) if classify_reply(&r, 0x0e0e) == "old" => {}
+            other => findings.push((
+                "after-successful-reload".to_string(),
+                format!(
+                    "edit 1 + SIGUSR1, then (reload parked at {park_at}) edit 2 + SIGUSR1: the answer afterwards is {:?}, the files on disk say `old`",
+                    other.map(|r| classify_reply(&r, 0x0e0e))
+                ),
+            )),
+        }
+        Ok(findings)
+    }
+
     /// Bring the server to the old configuration with nothing parked.
     fn reset(&mut self) -> Result<(), String> {
         // drain anything left over
@@ -1403,7 +1469,31 @@ pub fn run(ctx: &Ctx) -> i32 {
                 roots.insert(1, GateJob { tasks: vec![Task::R, Task::Q1, Task::Q2], failing: true, prefix: vec![] });
             }
             let mut ex = true;
-            let t = explore_gates(&mut gate_servers, roots, gate_deadline, &mut ex);
+            // a second signal at every gate of a running reload
+            let mut second: Vec<Violation> = Vec::new();
+            let mut second_runs = 0u64;
+            for park_at in ["reload.signal", "reload.want_lock", "reload.locked", "reload.done"] {
+                match gate_servers[0].second_signal(park_at) {
+                    Ok(f) => {
+                        second_runs += 1;
+                        for (c, t) in f {
+                            second.push(Violation {
+                                clause: c,
+                                summary: format!("[gate, two signals] {t}"),
+                                replay: json!({"part": "second-signal", "park_at": park_at}),
+                                slug: None,
+                            });
+                        }
+                    }
+                    Err(e) => {
+                        eprintln!("C19: machinery error: {e}");
+                        ex = false;
+                    }
+                }
+            }
+            let mut t = explore_gates(&mut gate_servers, roots, gate_deadline, &mut ex);
+            t.violations.extend(second);
+            t.schedules += second_runs;
             (t, ex)
         });
 
@@ -1604,7 +1694,29 @@ pub fn replay(_ctx: &Ctx, v: &Value) -> i32 {
     let root = work_dir("c19");
     let _guard = DirGuard(root.clone());
     let mut bad = false;
-    if v["part"].as_str() == Some("gate") {
+    if v["part"].as_str() == Some("second-signal") {
+        let park_at = v["park_at"].as_str().unwrap_or("reload.want_lock").to_string();
+        let mut gs = match start_gate_server(&root, 0) {
+            Ok(g) => g,
+            Err(e) => {
+                eprintln!("C19: machinery error: {e}");
+                return 2;
+            }
+        };
+        match gs.second_signal(&park_at) {
+            Ok(f) => {
+                println!("C19 replay: second SIGUSR1 while the reload is parked at {park_at}");
+                for (c, t) in &f {
+                    println!("  MISMATCH {c}: {t}");
+                    bad = true;
+                }
+            }
+            Err(e) => {
+                eprintln!("C19: machinery error: {e}");
+                return 2;
+            }
+        }
+    } else if v["part"].as_str() == Some("gate") {
         let tasks: Vec<Task> = v["tasks"].as_array().cloned().unwrap_or_default().iter().filter_map(|t| Task::from_name(t.as_str().unwrap_or(""))).collect();
         let choices: Vec<Task> = v["choices"].as_array().cloned().unwrap_or_default().iter().filter_map(|t| Task::from_name(t.as_str().unwrap_or(""))).collect();
         let failing = v["failing"].as_bool().unwrap_or(false);
